@@ -306,6 +306,9 @@ func (s *Store) enter(ctx context.Context, name string) error {
 	s.Journal = append(s.Journal, name)
 	if (s.FaultAt != 0 && s.calls == s.FaultAt) || (s.FaultMethod != "" && s.FaultMethod == name) {
 		s.FaultHit = true
+		if err := s.extFaultErr(); err != nil { // ext_c10.go: nil unless SetFaultErr was called
+			return err
+		}
 		if s.FaultKind == "deadline" {
 			return context.DeadlineExceeded
 		}
@@ -685,6 +688,7 @@ func (s *Store) setUserinfo(ui *oidc.UserInfo, userID string, scopes []string) {
 			}
 		}
 	}
+	s.extUserinfo(ui, u, scopes) // ext_c06.go: no-op unless EnableRichClaims was called
 }
 
 func (s *Store) SetUserinfoFromScopes(ctx context.Context, ui *oidc.UserInfo, userID, clientID string, scopes []string) error {
@@ -759,6 +763,7 @@ func (s *Store) GetPrivateClaimsFromScopes(ctx context.Context, userID, clientID
 			claims[strings.TrimPrefix(sc, "custom:")] = "v-" + clientID
 		}
 	}
+	claims = s.extPrivateClaims(claims, scopes) // ext_c06.go: no-op unless EnableRichClaims was called
 	return claims, nil
 }
 
